@@ -12,7 +12,7 @@ package turbotunnel
 //            and from the empty heap, never proved by a function here).
 //@ default model int
 //@ pred cmIndex(inner *clientMapInner) = inner != nil && inner.byAddr != nil && len(inner.byAddr) == len(inner.byAge) && (forall i int :: 0 <= i && i < len(inner.byAge) ==> inner.byAge[i] != nil && allocated(inner.byAge[i]) && has(inner.byAddr, inner.byAge[i].Addr) && inner.byAddr[inner.byAge[i].Addr] == i && inner.byAge[i].SendQueue != nil && !closed(inner.byAge[i].SendQueue)) && (forall a net.Addr :: has(inner.byAddr, a) ==> 0 <= inner.byAddr[a] && inner.byAddr[a] < len(inner.byAge) && inner.byAge[inner.byAddr[a]].Addr == a) && (forall i int, j int :: 0 <= i && i < j && j < len(inner.byAge) ==> inner.byAge[i].SendQueue != inner.byAge[j].SendQueue)
-//@ pred cmHeap(inner *clientMapInner) = (forall i int :: 1 <= i && i < len(inner.byAge) ==> !(inner.byAge[i].LastSeen < inner.byAge[(i-1)/2].LastSeen)) && (forall i int :: 0 <= i && i < len(inner.byAge) ==> !(inner.byAge[i].LastSeen < inner.byAge[0].LastSeen))
+//@ pred cmHeap(inner *clientMapInner) = (forall i int :: 1 <= i && i < len(inner.byAge) ==> !(inner.byAge[i].LastSeen < inner.byAge[(i-1)>>1].LastSeen)) && (forall i int :: 0 <= i && i < len(inner.byAge) ==> !(inner.byAge[i].LastSeen < inner.byAge[0].LastSeen))
 //
 // heap.Interface laws, proved for the real methods (container/heap's effects in the prelude are conditional on them).
 //@ func (inner *clientMapInner) Len() (r int)
@@ -73,3 +73,63 @@ package turbotunnel
 //@   ensures {never-early} forall a net.Addr :: old(has(inner.byAddr, a)) && !has(inner.byAddr, a) ==> now - old(inner.byAge[inner.byAddr[a]].LastSeen) >= timeout && closed(old(inner.byAge[inner.byAddr[a]].SendQueue))
 //@   ensures {none-stale-left} forall a net.Addr :: has(inner.byAddr, a) ==> now - inner.byAge[inner.byAddr[a]].LastSeen < timeout
 //@   ensures {kept-records-unchanged} forall a net.Addr :: has(inner.byAddr, a) ==> old(has(inner.byAddr, a)) && inner.byAge[inner.byAddr[a]] == old(inner.byAge[inner.byAddr[a]])
+//
+// ClientMap: the inner structure is protected by lock; the representation invariant is the monitor invariant.
+//@ invariant ClientMap(m) guard lock: cmIndex(&m.inner) && cmHeap(&m.inner)
+//@   protects clientMapInner.byAge, clientMapInner.byAddr, clientRecord.LastSeen, clientRecord.Addr, clientRecord.SendQueue, CH!closed, CH!closes
+//
+//@ func NewClientMap(timeout time.Duration) (r *ClientMap)
+//@   props C17, C05
+//@   ensures r != nil && fresh(r) && inv(r)
+//
+// The sweeper: removeExpired runs under the lock, with the constructor's timeout, every timeout/2.
+//@ func NewClientMap$1()
+//@   props C17
+//@   requires m != nil
+//@   loop 1 invariant m != nil
+//@   at call Sleep assert {sweeps-every-half-timeout} arg0 == timeout / 2
+//@   at call removeExpired assert {sweep-under-lock-with-constructor-timeout} held(&m.lock) && arg2 == timeout && arg0 == &m.inner
+//
+//@ func (m *ClientMap) SendQueue(addr net.Addr) (q chan []byte)
+//@   props C17, C05
+//@   requires m != nil
+//@   at call SendQueue assert {looks-up-the-callers-address} arg1 == addr && arg0 == &m.inner
+//@   ensures q != nil
+//
+// QueuePacketConn. closed is close-only; the connection is closed exactly once (closeOnce).
+//@ func (c *QueuePacketConn) QueueIncoming(p []byte, addr net.Addr)
+//@   props C17, C05
+//@   flag concurrent closeonly=closed
+//@   requires c != nil
+//@   at call send assert {enqueues-a-private-copy-tagged-with-the-callers-address} ch == c.recvQueue && value.Addr == addr && fresh(value.P) && len(value.P) == len(p) && (forall k int :: 0 <= k && k < len(p) ==> value.P[k] == p[k])
+//@   ensures {nothing-enqueued-after-close} old(closed(c.closed)) ==> sends(c.recvQueue) == old(sends(c.recvQueue))
+//
+//@ func (c *QueuePacketConn) OutgoingQueue(addr net.Addr) (q <-chan []byte)
+//@   props C17, C05
+//@   requires c != nil && c.clients != nil
+//@   at call SendQueue assert {queue-of-the-callers-address} arg1 == addr && arg0 == c.clients
+//
+//@ func (c *QueuePacketConn) ReadFrom(p []byte) (n int, a net.Addr, err error)
+//@   props C17, C05
+//@   flag concurrent closeonly=closed lifetime=closed nosafety
+//@   requires c != nil && c.closed != nil && c.recvQueue != nil
+//@   ensures {fails-after-close} old(closed(c.closed)) ==> err != nil && n == 0 && recvs(c.recvQueue) == old(recvs(c.recvQueue))
+//@   ensures {error-only-when-closed} err != nil ==> closed(c.closed)
+//
+//@ func (c *QueuePacketConn) WriteTo(p []byte, addr net.Addr) (n int, err error)
+//@   props C17, C05
+//@   flag concurrent closeonly=closed nosafety
+//@   requires c != nil && c.clients != nil
+//@   at call SendQueue assert {queue-of-the-destination-address} arg1 == addr && arg0 == c.clients
+//@   at call send assert {enqueues-a-private-copy} fresh(value) && len(value) == len(p) && (forall k int :: 0 <= k && k < len(p) ==> value[k] == p[k]) && calls(SendQueue) == 1
+//@   ensures {fails-after-close} old(closed(c.closed)) ==> err != nil && calls(SendQueue) == 0
+//@   ensures {error-only-when-closed} err != nil ==> closed(c.closed)
+//
+//@ func (c *QueuePacketConn) closeWithError(err error) (r error)
+//@   props C17
+//@   flag nosafety
+//@   requires c != nil && c.closed != nil && (oncedone(&c.closeOnce) <==> closed(c.closed))
+//@   ensures {closed-afterwards} closed(c.closed) && oncedone(&c.closeOnce)
+//@   ensures {closes-at-most-once} closes(c.closed) == old(closes(c.closed)) + ite(old(closed(c.closed)), 0, 1)
+//@   ensures {second-close-reports-an-error} old(closed(c.closed)) ==> r != nil
+//@   ensures {first-close-succeeds} !old(closed(c.closed)) ==> r == nil
